@@ -127,7 +127,9 @@ def judge(prop, f, impl, model, spec):
                     j.viol = "op %d on the shared expression gives %s, a fresh compile gives %s" % (i, got, want)
                     break
             j.nontrivial = True
-            cmp_model(j, impl, model)
+            # `x[p][last()]` is compiled to lastFuncQuery, whose one-time count per clone is not modelled
+            # (outside C03's fragment): the history property is still judged, the model comparison is an observation
+            cmp_model(j, impl, model, in_fragment=not re.search(r"\]\s*\[\s*last\(\)", expr))
         elif impl != "cerr":
             j.viol = "history run failed: " + impl
         else:
